@@ -56,9 +56,12 @@ type gop struct {
 	digK     byte // '-' none, 'd' digest of Data(digName,digCid), 'b' bogus
 	digNm    []int
 	digCid   int
-	digLen   int // 't': length of the truncated digest
-	lp       int // data: 0 bare Data; 1 LpPacket; 2 LpPacket with PIT token; 3 with congestion mark; 4 with incoming face id
-	life     int // ms, -1 = default lifetime
+	digLen   int  // 't': length of the truncated digest
+	seg      bool // data: delivered through a multi-buffer wire reader (hook VerifOnPacket)
+	nilcb    bool // express: nil callback
+	k        int  // junk: which malformed / unsupported arrival
+	lp       int  // data: 0 bare Data; 1 LpPacket; 2 LpPacket with PIT token; 3 with congestion mark; 4 with incoming face id
+	life     int  // ms, -1 = default lifetime
 	nest     *nestSpec
 	cid      int
 	reason   int
@@ -153,6 +156,9 @@ func (g gop) String() string {
 		if g.sendFail {
 			rep += " sendfail=1"
 		}
+		if g.nilcb {
+			rep += " nilcb=1"
+		}
 		if g.during != nil {
 			rep += fmt.Sprintf(" during=%s:%s:%d", nameTxt(g.during.name), b01(g.during.cbp), g.during.life)
 		}
@@ -161,6 +167,9 @@ func (g gop) String() string {
 		lp := ""
 		if g.lp > 0 {
 			lp = fmt.Sprintf(" lp=%d", g.lp)
+		}
+		if g.seg {
+			lp += " seg=1"
 		}
 		if g.delay > 0 {
 			return fmt.Sprintf("data n=%s cid=%d delay=%d%s", nameTxt(g.name), g.cid, g.delay, lp)
@@ -195,6 +204,10 @@ func (g gop) String() string {
 		return fmt.Sprintf("interest n=%s life=%s tok=%s", nameTxt(g.name), lifeTxt(g.life), g.tok)
 	case "reply":
 		return fmt.Sprintf("reply i=%d", g.iid)
+	case "junk":
+		return fmt.Sprintf("junk k=%d n=%s cid=%d", g.k, nameTxt(g.name), g.cid)
+	case "facestop", "facestart", "faceerror":
+		return g.kind
 	}
 	return "?"
 }
@@ -271,6 +284,12 @@ func parseGop(line string) (gop, bool) {
 			g.ns, _ = strconv.Atoi(v)
 		case "lp":
 			g.lp, _ = strconv.Atoi(v)
+		case "seg":
+			g.seg = v == "1"
+		case "nilcb":
+			g.nilcb = v == "1"
+		case "k":
+			g.k, _ = strconv.Atoi(v)
 		case "sendfail":
 			g.sendFail = v == "1"
 		case "during":
@@ -292,7 +311,7 @@ func parseGop(line string) (gop, bool) {
 		}
 	}
 	switch g.kind {
-	case "express", "data", "nack", "adv", "attach", "detach", "interest", "reply":
+	case "express", "data", "nack", "adv", "attach", "detach", "interest", "reply", "junk", "facestop", "facestart", "faceerror":
 		return g, true
 	}
 	return g, false
@@ -312,11 +331,18 @@ var genericComps = []string{"", "a", "b", "c", "d", "e", "f", "g", "h", "i"}
 // the face interface; the Interest must therefore be in the PIT before it is handed to the face.
 type lockedFace struct {
 	*dummy.DummyFace
-	mu     sync.Mutex
-	reply  []byte // fed back into the engine during the next Send
-	fed    bool
-	fail   bool   // the next Send fails
-	during func() // runs while the next Send is on the stack
+	mu      sync.Mutex
+	reply   []byte // fed back into the engine during the next Send
+	fed     bool
+	fail    bool   // the next Send fails
+	during  func() // runs while the next Send is on the stack
+	onError func(err error) error
+}
+
+// SetCallback keeps the engine's error callback so that a history can report a face error to the engine.
+func (f *lockedFace) SetCallback(onPkt func(r enc.ParseReader) error, onError func(err error) error) {
+	f.onError = onError
+	f.DummyFace.SetCallback(onPkt, onError)
 }
 
 func (f *lockedFace) Send(pkt enc.Wire) error {
@@ -367,6 +393,7 @@ type world struct {
 	iidWire     map[int][]byte
 	iidTok      map[int]string
 	curHid      int
+	nextNilCb   bool
 	curIntWire  []byte
 	curIid      int
 }
@@ -615,16 +642,26 @@ func (w *world) express(name []int, cbp bool, digK byte, digNm []int, digCid int
 			w.exprMu.Unlock()
 		}
 	}
-	if err := w.eng.Express(enci, cb); err != nil {
+	var cbArg ndn.ExpressCallbackFunc = cb
+	if w.nextNilCb { // Express(interest, nil): nothing can be observed for this Interest
+		w.nextNilCb = false
+		cbArg = nil
+		w.mu.Lock()
+		w.nested = append(w.nested, fmt.Sprintf("nocb %d", pid))
+		w.mu.Unlock()
+	}
+	kind := "express"
+	if err := w.eng.Express(enci, cbArg); err != nil {
 		w.mu.Lock()
 		w.outs = append(w.outs, "ret err")
 		delete(w.pidWire, pid) // nothing was transmitted for this Interest
 		w.mu.Unlock()
+		kind = "expressfail" // face.Send failed: the entry stays in the PIT, Express reports the error
 	}
 	w.mu.Lock()
 	nm := w.keysOf(mkName(name))
 	w.mu.Unlock()
-	return fmt.Sprintf("express %s %s %s %s", nm, b01(cbp), digTxt, lifeNs(life))
+	return fmt.Sprintf("%s %s %s %s %s", kind, nm, b01(cbp), digTxt, lifeNs(life))
 }
 
 func (w *world) handler(hid int) ndn.InterestHandler {
@@ -837,13 +874,11 @@ func runCase(t *testing.T, ops []gop, cfg string) []string {
 					}
 				}
 				nOuts := len(w.outs)
+				w.nextNilCb = g.nilcb && (len(g.name) > 0 || g.digK != '-')
 				opTxt = w.express(g.name, g.cbp, g.digK, g.digNm, g.digCid, g.digLen, g.life, g.nest)
+				w.nextNilCb = false
 				w.face.reply, w.face.fail, w.face.during = nil, false, nil
-				if len(w.outs) > nOuts && w.outs[len(w.outs)-1] == "ret err" && strings.HasPrefix(opTxt, "express ") && !strings.HasPrefix(opTxt, "express - ") {
-					opTxt = "expressfail " + strings.TrimPrefix(opTxt, "express ")
-				} else if g.sendFail && strings.HasPrefix(opTxt, "express - ") && g.digK != '-' {
-					opTxt = "expressfail " + strings.TrimPrefix(opTxt, "express ")
-				}
+				_ = nOuts
 				if w.face.fed && replyLine != "" {
 					w.mu.Lock()
 					w.nested = append([]string{replyLine}, w.nested...)
@@ -873,11 +908,20 @@ func runCase(t *testing.T, ops []gop, cfg string) []string {
 					e.Init(pkt)
 					wire = e.Encode(pkt).Join()
 				}
+				if !w.face.IsRunning() { // nothing reaches the engine through a stopped face
+					_ = w.face.FeedPacket(wire)
+					opTxt = "junk 0"
+					break
+				}
 				t0 := w.nowMs()
 				if cfg != "dummy" {
 					w.cancelDelay.Store(int64(g.delay))
 				}
-				if err := w.face.FeedPacket(wire); err != nil {
+				if g.seg && len(wire) > 6 {
+					// the same bytes, but handed over as a wire of several buffers (what a stream face may do)
+					a, b := len(wire)/3, 2*len(wire)/3
+					_ = w.eng.VerifOnPacket(enc.NewWireReader(enc.Wire{wire[:a], wire[a:b], wire[b:]}))
+				} else if err := w.face.FeedPacket(wire); err != nil {
 					w.outs = append(w.outs, "ret err")
 				}
 				w.cancelDelay.Store(0)
@@ -899,6 +943,11 @@ func runCase(t *testing.T, ops []gop, cfg string) []string {
 				e := spec.PacketEncoder{}
 				e.Init(pkt)
 				opTxt = fmt.Sprintf("nack %s %d", w.keysOf(fn), g.reason)
+				if !w.face.IsRunning() {
+					_ = w.face.FeedPacket(e.Encode(pkt).Join())
+					opTxt = "junk 0"
+					break
+				}
 				t0 := w.nowMs()
 				if cfg != "dummy" {
 					w.cancelDelay.Store(int64(g.delay))
@@ -944,6 +993,11 @@ func runCase(t *testing.T, ops []gop, cfg string) []string {
 					e.Init(pkt)
 					wire = e.Encode(pkt).Join()
 				}
+				if !w.face.IsRunning() {
+					_ = w.face.FeedPacket(wire)
+					opTxt = "junk 0"
+					break
+				}
 				iid := w.nextIid
 				w.nextIid++
 				w.curIid = iid
@@ -955,6 +1009,61 @@ func runCase(t *testing.T, ops []gop, cfg string) []string {
 				}
 				if len(w.outs) == n0 {
 					w.outs = append(w.outs, "handler none")
+				}
+			case "junk":
+				// malformed / unsupported arrivals: the engine must drop them without touching any pending Interest
+				opTxt = fmt.Sprintf("junk %d", g.k)
+				nm := g.name
+				if len(nm) == 0 {
+					nm = []int{1}
+				}
+				dw := dataWire(nm, g.cid)
+				enc1 := func(lpp *spec.LpPacket) []byte {
+					pkt := &spec.Packet{LpPacket: lpp}
+					e := spec.PacketEncoder{}
+					e.Init(pkt)
+					return e.Encode(pkt).Join()
+				}
+				var wire []byte
+				switch g.k {
+				case 1: // garbage
+					wire = []byte{0xde, 0xad, 0xbe, 0xef, 0x00, 0x01}
+				case 2: // a Data packet cut in the middle
+					wire = dw[:len(dw)/2]
+				case 3: // a fragment of a fragmented LpPacket (not supported) carrying a Data some Interest may be waiting for
+					idx, cnt := uint64(0), uint64(2)
+					wire = enc1(&spec.LpPacket{FragIndex: &idx, FragCount: &cnt, Fragment: enc.Wire{dw}})
+				case 4: // an LpPacket whose fragment is garbage
+					wire = enc1(&spec.LpPacket{Fragment: enc.Wire{[]byte{0xde, 0xad, 0xbe, 0xef}}})
+				case 5: // an LpPacket without a fragment (an IDLE frame)
+					wire = enc1(&spec.LpPacket{PitToken: []byte{1, 2}})
+				case 6: // a Nack header around a Data
+					wire = enc1(&spec.LpPacket{Nack: &spec.NetworkNack{Reason: 150}, Fragment: enc.Wire{dw}})
+				case 7: // an LpPacket whose fragment is a truncated Data
+					wire = enc1(&spec.LpPacket{Fragment: enc.Wire{dw[:len(dw)-3]}})
+				default: // empty packet
+					wire = []byte{}
+				}
+				_ = w.face.FeedPacket(wire)
+			case "facestop":
+				opTxt = "facestop"
+				if err := w.eng.Stop(); err != nil {
+					w.outs = append(w.outs, "ret err")
+				} else {
+					w.outs = append(w.outs, "ret ok")
+				}
+			case "facestart":
+				opTxt = "facestart"
+				if err := w.eng.Start(); err != nil {
+					w.outs = append(w.outs, "ret err")
+				} else {
+					w.outs = append(w.outs, "ret ok")
+				}
+			case "faceerror":
+				// the face reports an I/O error to the engine (it only logs it); pending Interests must still resolve
+				opTxt = "junk 9"
+				if w.face.onError != nil {
+					_ = w.face.onError(errors.New("read: connection reset"))
 				}
 			case "reply":
 				opTxt = fmt.Sprintf("reply %d", g.iid)
@@ -1024,7 +1133,9 @@ func runCase(t *testing.T, ops []gop, cfg string) []string {
 			emit("pit " + w.pitDump())
 			emit("fib " + w.fibDump())
 		}
-		_ = w.eng.Stop()
+		if w.eng.IsRunning() {
+			_ = w.eng.Stop()
+		}
 	}
 	if cfg == "dummy" {
 		body(t)
@@ -1059,6 +1170,8 @@ type genr struct {
 }
 
 func (g *genr) pick(xs []int) int { return xs[g.r.Intn(len(xs))] }
+
+func (g *genr) pick3(a, b, c string) string { return []string{a, b, c}[g.r.Intn(3)] }
 
 // names are drawn from a small nested universe so that prefixes, duplicates and siblings are frequent
 func (g *genr) name(alpha, maxDepth int) []int {
@@ -1148,6 +1261,7 @@ func (g *genr) genCase() []gop {
 	clock := 0
 	var deads []int
 	handlersOn := g.r.Intn(3) == 0
+	faceEvents := g.r.Intn(8) == 0 // Stop / Start (also misused) / face errors in the middle of the history
 	related := func() []int {
 		if len(expressed) > 0 && g.r.Intn(5) > 0 {
 			b := expressed[g.r.Intn(len(expressed))]
@@ -1171,6 +1285,14 @@ func (g *genr) genCase() []gop {
 	}
 	for i := 0; i < nops; i++ {
 		x := g.r.Intn(100)
+		if g.r.Intn(25) == 0 { // a malformed / unsupported arrival
+			ops = append(ops, gop{kind: "junk", k: g.r.Intn(9), name: related(), cid: g.r.Intn(3)})
+			continue
+		}
+		if faceEvents && g.r.Intn(6) == 0 {
+			ops = append(ops, gop{kind: g.pick3("facestop", "facestart", "faceerror")})
+			continue
+		}
 		switch {
 		case x < 34:
 			o := gop{kind: "express", name: g.name(alpha, depth), cbp: g.r.Intn(3) == 0, digK: '-', life: g.pick(lifetimes)}
@@ -1249,6 +1371,9 @@ func (g *genr) genCase() []gop {
 					}
 				}
 			}
+			if o.nest == nil && o.replyK == 0 && g.r.Intn(30) == 0 {
+				o.nilcb = true
+			}
 			expressed = append(expressed, o.name)
 			if o.life >= 0 {
 				deads = append(deads, clock+o.life)
@@ -1268,6 +1393,7 @@ func (g *genr) genCase() []gop {
 			if g.r.Intn(3) == 0 {
 				o.lp = 1 + g.r.Intn(4)
 			}
+			o.seg = g.r.Intn(4) == 0
 			if g.r.Intn(25) == 0 {
 				o.name = append(stripParams(o.name), g.pick([]int{8, 9, 9}))
 			}
@@ -1378,7 +1504,11 @@ func (g *genr) fibBurst(alpha, depth int, nInt *int) []gop {
 			ops = append(ops, gop{kind: "adv", ms: g.pick(advances)})
 		default:
 			if *nInt > 0 {
-				ops = append(ops, gop{kind: "reply", iid: g.r.Intn(*nInt)})
+				if g.r.Intn(5) == 0 { // reply through a face that was stopped meanwhile (ErrFaceDown), then go on
+					ops = append(ops, gop{kind: "facestop"}, gop{kind: "reply", iid: g.r.Intn(*nInt)}, gop{kind: "facestart"})
+				} else {
+					ops = append(ops, gop{kind: "reply", iid: g.r.Intn(*nInt)})
+				}
 			}
 		}
 	}
